@@ -471,9 +471,7 @@ fn model_class(sc: &Scenario) -> String {
         proc: model_plan(sc),
         later: vec![],
     };
-    let cache = c19::new_ref_cache();
-    let reference = c19::reference_for(&cache, &case.job);
-    c19::run_case(&case, reference.as_ref(), false).outcome_class
+    c19::run_case_isolated(&case, false).outcome_class
 }
 
 fn model_plan(sc: &Scenario) -> ProcPlan {
